@@ -4,7 +4,7 @@ from e1lib import Harness, run_property
 
 tier = sys.argv[1] if len(sys.argv) > 1 else "quick"
 OV = [("zzverif", "zzverif"), ("circuit", "circuit")]
-hs = [Harness("verifC14RoundTrip", "./circuit", OV, expect_reach=["end"], desc="Marshal -> ParseMPCLC -> Marshal on circuits with 3 signature shapes (plain, array, compound/struct with empty names), 1..3 gates of arbitrary type and arbitrary well-formed wiring"),
+hs = [Harness("verifC14RoundTrip", "./circuit", OV, expect_reach=["end"], desc="Marshal -> ParseMPCLC -> Marshal on circuits with 5 signature shapes (plain, array, struct with unnamed member, slice-typed arguments, struct with a slice member) (plain, array, compound/struct with empty names), 1..3 gates of arbitrary type and arbitrary well-formed wiring"),
       Harness("verifC14Malformed14" if tier == "quick" else "verifC14Malformed27", "./circuit", OV, expect_reach=["accepted", "rejected"],
               desc="valid header/IO section with symbolic NumGates <= 3, NumWires <= 6 followed by 0..%d fully symbolic bytes (symbolic length): no panic; if accepted, inputs defined before use and all wires assigned" % (14 if tier == "quick" else 27),
               flags=["-unwind", "600"])]
